@@ -11,11 +11,13 @@ RULE = ("inputs {lone file, flat directory, nested directory, missing path, file
         "containing one} x extra-argument lists {none, -p P, -p 'two words', -e sub/, -s cfg.yaml, and every ordered pair "
         "of those (thorough; quick: a rotating third of the pairs)}.  `cmake -P driver.cmake` includes the working "
         "tree's cmake/cminx.cmake with CMINX_EXECUTABLE bound to a wrapper that logs its argv and runs the working-tree "
-        "cminx.main.  Oracle: logged argv = input, -r iff directory, the extra arguments verbatim and in order, -o "
+        "cminx.main; plus call sequences (two calls on one output directory with an in-place edit of a nested input "
+        "file, a changed extra argument or an introduced syntax error in between, on both sides).  Oracle: logged argv = input, -r iff directory, the extra arguments verbatim and in order, -o "
         "output; output tree byte-equal to a direct CLI run with those arguments; cmake fails (and the command after "
         "the call is not reached) iff the direct run fails.  non-trivial = every case; distinct by (input, extras)")
 
-EXTRAS = {"none": [], "p": ["-p", "P"], "p2": ["-p", "two words"], "e": ["-e", "sub/"], "s": ["-s", "{cfg}"]}
+EXTRAS = {"none": [], "p": ["-p", "P"], "p2": ["-p", "two words"], "e": ["-e", "sub/"], "s": ["-s", "{cfg}"],
+          "e2": ["-e", "other/"], "p3": ["-p", "sub/"]}     # e+e2 repeat a flag, p3+e repeat a value
 INPUTS = ["file", "flat", "nested", "missing", "badfile", "baddir"]
 
 CLI = ("import sys; sys.path.insert(0, %r); import warnings; warnings.filterwarnings('ignore'); import cminx; "
@@ -102,20 +104,79 @@ def run_case(job):
             "cls": msgs[0].split(":")[0] if msgs else None}
 
 
+def run_sequence(job):
+    """two calls on the same output directory with an edit in between, on both sides (cmake function / direct CLI)"""
+    inp, ex1, ex2, edit = job
+    box = fsbox.Box("c19s")
+    msgs = []
+    try:
+        paths = build(box)
+        work = box.path("work")
+        target = os.path.join(work, paths[inp])
+        wrapper = box.path("cminx-wrapper.sh")
+        with open(wrapper, "w") as f:
+            f.write(f"#!/bin/sh\nexec {common.PYTHON} -c \"{CLI % common.REPO_SRC}\" \"$@\"\n")
+        os.chmod(wrapper, os.stat(wrapper).st_mode | stat.S_IEXEC)
+        env = dict(os.environ, CMINXDIR=box.path("cfg"), HOME=box.path("home"), XDG_CONFIG_HOME=box.path("home", ".config"))
+        out_cm, out_cli = os.path.join(work, "out-cmake"), os.path.join(work, "out-cli")
+        isdir = os.path.isdir(target)
+        victim = os.path.join(target, "sub", "deep", "c.cmake") if inp == "nested" else \
+            os.path.join(target, "a.cmake") if isdir else target
+        rcs = []
+        for step, ex in enumerate((ex1, ex2)):
+            extra = []
+            for e in ex:
+                extra += [a.format(cfg=os.path.join(work, "cfg.yaml")) for a in EXTRAS[e]]
+            if step == 1:
+                if edit == "content":
+                    with open(victim, "a") as f:
+                        f.write("\n#[[[\n# Added later.\n#]]\nfunction(added_later)\nendfunction()\n")
+                elif edit == "break":
+                    with open(victim, "a") as f:
+                        f.write("\nfunction(broken\n")
+            quoted = " ".join('"' + a + '"' for a in extra)
+            with open(box.path("driver.cmake"), "w") as f:
+                f.write(f'set(CMINX_EXECUTABLE "{wrapper}")\ninclude("{os.path.join(common.REPO_ROOT, "cmake", "cminx.cmake")}")\n'
+                        f'cminx_gen_rst("{target}" "{out_cm}" {quoted})\nmessage(STATUS "REACHED-AFTER-CALL")\n')
+            pc = subprocess.run(["cmake", "-P", box.path("driver.cmake")], cwd=work, env=env, capture_output=True, text=True)
+            pd = subprocess.run([common.PYTHON, "-c", CLI % common.REPO_SRC, target] + (["-r"] if isdir else []) + extra +
+                                ["-o", out_cli], cwd=work, env=env, capture_output=True, text=True)
+            rcs.append((pc.returncode != 0, pd.returncode != 0))
+            if (pc.returncode != 0) != (pd.returncode != 0):
+                msgs.append(f"status: step {step + 1}: direct run {'fails' if pd.returncode else 'succeeds'} but the cmake "
+                            f"call {'fails' if pc.returncode else 'succeeds'} (second call on an existing output directory)")
+            t_cm = box.files("work/out-cmake") if os.path.isdir(out_cm) else {}
+            t_cli = box.files("work/out-cli") if os.path.isdir(out_cli) else {}
+            if t_cm != t_cli:
+                diffk = sorted(k for k in set(t_cm) | set(t_cli) if t_cm.get(k) != t_cli.get(k))
+                msgs.append(f"tree: after step {step + 1} the output of cminx_gen_rst differs from the direct runs in {diffk[:4]}")
+    finally:
+        box.cleanup()
+    msgs = [m.replace(box.root, "<box>") for m in msgs]
+    return {"viol": msgs[:4], "obs": common.digest([job, rcs]), "n": 4, "nt": common.digest(job),
+            "cls": msgs[0].split(":")[0] if msgs else None}
+
+
 def run(ctx):
     quick = ctx.tier == "quick"
     singles = [[e] if e != "none" else [] for e in EXTRAS]
     pairs = [list(p) for p in itertools.permutations([e for e in EXTRAS if e != "none"], 2)
-             if not (p[0] in ("p", "p2") and p[1] in ("p", "p2"))]
+             if not (p[0] in ("p", "p2", "p3") and p[1] in ("p", "p2", "p3"))]
     if quick:
-        pairs = [p for i, p in enumerate(pairs) if (i + ctx.seed) % 3 == 0]
+        must = [["e", "e2"], ["p3", "e"]]
+        pairs = must + [p for i, p in enumerate(pairs) if (i + ctx.seed) % 3 == 0 and p not in must]
     jobs = [(inp, ex) for inp in INPUTS for ex in singles + pairs]
     ctx.cov["bounds"] = {"inputs": INPUTS, "extras": EXTRAS, "cases": len(jobs)}
     ctx.sweep(run_case, jobs, space="inputs x extra-argument lists", selftest=1, chunk=1)
+    seq = [(inp, e1, e2, edit) for inp in ("file", "flat", "nested")
+           for e1, e2, edit in (([], [], "content"), ([], ["p"], "none"), (["p"], [], "content"), ([], [], "break"))]
+    ctx.sweep(run_sequence, seq, space="two calls on one output directory with an edit in between", selftest=0, chunk=1)
     ctx.assumptions += ["empty-string extra arguments are not generated (CMake list expansion drops them by design)",
                         "the package config template (needs an installed build) is not executed; CMINX_EXECUTABLE is bound by the driver"]
     return RULE
 
 
 def replay(case):
+    if len(case) == 4:
+        return run_sequence(tuple(case))["viol"]
     return run_case((case[0], case[1]))["viol"]
